@@ -120,8 +120,8 @@ Lemma I_tagset_merge h0 h ts other : I h0 h -> I h0 (fst (tagset_merge true h ts
 Proof.
   intros Hi. unfold tagset_merge. destruct ts as [t|]; [|auto]. destruct other as [o|]; [|auto].
   destruct (negb (ts_schema t =? ts_schema o)%Z); [auto|].
-  destruct (alloc h (read h (ts_list t)) (len (ts_list t))) as [h1 nl] eqn:E.
-  pose proof (I_alloc h0 h (read h (ts_list t)) (len (ts_list t)) Hi) as [H1 H2].
+  destruct (alloc h (read h (ts_list t)) (len (ts_list t) + len (ts_list o))) as [h1 nl] eqn:E.
+  pose proof (I_alloc h0 h (read h (ts_list t)) (len (ts_list t) + len (ts_list o)) Hi) as [H1 H2].
   rewrite E in H1, H2. cbn in H1, H2.
   destruct (merge_loop h1 nl (ts_list o) (seq 0 (len (ts_list o)))) as [h2 nl'] eqn:E2.
   pose proof (I_merge_loop h0 (ts_list o) (seq 0 (len (ts_list o))) h1 nl H1 H2) as [H3 _].
@@ -311,7 +311,7 @@ Proof. intros Hf. apply ext_preserved. apply (I_do_calls_no_tags h0 cs h0 Hf (I_
    while still returning the merged keys *)
 Example repaired_witness :
   arrays (do_calls true wit_heap wit_calls) =
-    [[1; 2; 0; 0]%Z; [7%Z]; [1; 2]%Z; [1; 2; 7; 0]%Z; [1; 2; 7]%Z] /\
+    [[1; 2; 0; 0]%Z; [7%Z]; [1; 2; 7]%Z; [1; 2; 7]%Z] /\
   read (fst (supported_tags true wit_heap (Some wit_regime) [wit_addon]))
        (snd (supported_tags true wit_heap (Some wit_regime) [wit_addon])) = [1; 2; 7]%Z /\
   nth 0 (arrays (do_calls false wit_heap wit_calls)) [] = [1; 2; 7; 0]%Z.
